@@ -93,7 +93,7 @@ type tdUniverse struct {
 }
 
 func tdModPath(m int) string { return fmt.Sprintf("m%d.test@v0", m) }
-func tdVer(v int) string    { return fmt.Sprintf("v0.%d.0", v) }
+func tdVer(v int) string     { return fmt.Sprintf("v0.%d.0", v) }
 func tdImport(r [2]int) string {
 	if r[1] == 1 {
 		return fmt.Sprintf("m%d.test@v0:m%d", r[0], r[0])
